@@ -562,39 +562,145 @@ Qed.
 Lemma forget_root_noop c s n : forget_one c s ROOT_ID n = s.
 Proof. reflexivity. Qed.
 
+(* ------------------------------------------------------------------ counts stay below the number of lookups made: no saturation *)
+Definition RB (s : istate) (b : N) : Prop := forall j, refs_of s j <= b.
+
+Lemma do_lookup_rb c s t r s' b :
+  I1 s -> fresh_alloc c s t -> RB s b -> do_lookup c s t = (r, s') -> RB s' (b + 1).
+Proof.
+  intros H1 HF R DL j. pose proof (do_lookup_refs _ _ _ _ _ H1 HF DL) as X.
+  destruct r as [i| |]; [|rewrite X; specialize (R j); lia|contradiction].
+  rewrite X. unfold upd, sat_add. pose proof (R i). pose proof (R j). destruct (j =? i); lia.
+Qed.
+
+Lemma forget_rb c s i n b : RB s b -> RB (forget_one c s i n) b.
+Proof.
+  intros R j. rewrite forget_refs. unfold spec_forget, upd. pose proof (R i). pose proof (R j).
+  destruct (i =? ROOT_ID); [lia|]. destruct (j =? i); lia.
+Qed.
+
+Lemma readdir_entries_rb c plus : forall ents s b,
+  I1 s -> ents_fresh c plus s ents -> RB s b ->
+  RB (snd (readdir_entries c plus s ents)) (b + N.of_nat (length ents)).
+Proof.
+  induction ents as [|e r IH]; cbn [readdir_entries ents_fresh length]; intros s b H1 HF R.
+  - cbn. intros j. specialize (R j). lia.
+  - destruct HF as [HF1 HF2]. rewrite Nat2N.inj_succ. unfold readdir_entry in *.
+    destruct (do_lookup c s (fst e)) as [lr s1] eqn:DL.
+    pose proof (do_lookup_rb _ _ _ _ _ _ H1 HF1 R DL) as R1.
+    pose proof (do_lookup_I1 _ _ _ _ _ H1 DL) as I.
+    destruct lr as [i| |]; cbn [snd] in *.
+    + set (s2 := if plus && snd e then s1 else forget_one c s1 i 1) in *.
+      assert (I2 : I1 s2) by (unfold s2; destruct (plus && snd e); [exact I|apply forget_I1; exact I]).
+      assert (R2 : RB s2 (b + 1)) by (unfold s2; destruct (plus && snd e); [exact R1|apply forget_rb; exact R1]).
+      specialize (IH s2 _ I2 HF2 R2). destruct (readdir_entries c plus s2 r) as [l s3]; cbn [snd] in *.
+      intros j. specialize (IH j). lia.
+    + intros j. specialize (R1 j). lia.
+    + intros j. specialize (R1 j). lia.
+Qed.
+
+Lemma step_rb c s o b :
+  I1 s -> op_fresh c s o -> RB s b -> 2 <= b -> RB (snd (step c s o)) (b + allocs o).
+Proof.
+  intros H1 HF R B2.
+  assert (W : forall x, RB s (b + x)) by (intros x j; specialize (R j); lia).
+  assert (LK : forall t, fresh_alloc c s t -> RB (snd (lookup_reply c s t)) (b + 1)).
+  { intros t F. unfold lookup_reply. destruct (do_lookup c s t) as [lr s1] eqn:DL.
+    pose proof (do_lookup_rb _ _ _ _ _ _ H1 F R DL). destruct lr; assumption. }
+  destruct o as [p t|p t|i p t|p t ex ok|i n|l|plus ents| |root]; cbn [step op_fresh allocs] in *.
+  - destruct (valid s p); [|apply W]. destruct t; [apply LK; exact HF|apply W].
+  - destruct (valid s p); [|apply W]. destruct t; [apply LK; exact HF|apply W].
+  - destruct (valid s i && valid s p); [|apply W]. destruct t; [apply LK; exact HF|apply W].
+  - destruct (valid s p); [|apply W]. destruct t as [t|]; [|apply W].
+    specialize (LK t HF). destruct (lookup_reply c s t) as [rep s1]. cbn [snd] in LK.
+    destruct rep; try exact LK. destruct ex; [|exact LK].
+    destruct (dget s1 i) as [d|]; [destruct (i_safe d); [destruct ok|]|]; cbn [snd];
+      first [exact LK|apply forget_rb; exact LK].
+  - cbn [snd]. intros j. pose proof (forget_rb c s i n b R j). lia.
+  - cbn [snd]. clear LK W HF H1. revert s R. induction l as [|x r IH]; cbn; intros s R.
+    + intros j. specialize (R j). lia.
+    + apply IH. apply forget_rb; exact R.
+  - pose proof (readdir_entries_rb c plus ents s b H1 HF R) as X.
+    destruct (readdir_entries c plus s ents); exact X.
+  - apply W.
+  - cbn [snd]. intros j. rewrite import_refs by reflexivity. destruct (j =? ROOT_ID); lia.
+Qed.
+
 (* ------------------------------------------------------------------ whole histories *)
 Fixpoint hist_fresh (c : cfg) (s : istate) (h : list op) : Prop :=
   match h with [] => True | o :: r => op_fresh c s o /\ hist_fresh c (snd (step c s o)) r end.
-Fixpoint no_leak (c : cfg) (s : istate) (h : list op) : Prop :=
-  match h with [] => True | o :: r => create_leaks c s o = false /\ no_leak c (snd (step c s o)) r end.
 Definition total_allocs (h : list op) : N := fold_right (fun o a => allocs o + a) 0 h.
 
-Lemma spec_step_ext f g o r j : (forall k, f k = g k) -> spec_step f o r j = spec_step g o r j.
+(* the value of the ledger at j depends only on its previous value at j *)
+Lemma spec_give_local f g i j : f j = g j -> spec_give f i j = spec_give g i j.
+Proof. intros E. unfold spec_give, upd. destruct (N.eqb_spec j i); [subst; rewrite E; reflexivity|exact E]. Qed.
+Lemma spec_forget_local f g i n j : f j = g j -> spec_forget f i n j = spec_forget g i n j.
 Proof.
-  intros E. destruct o, r; cbn; auto using spec_give_ext, spec_forget_ext, fold_ent_ext, fold_forget_ext.
+  intros E. unfold spec_forget, upd. destruct (i =? ROOT_ID); [exact E|].
+  destruct (N.eqb_spec j i); [subst; rewrite E; reflexivity|exact E].
 Qed.
-Lemma spec_run_ext h : forall reps f g, (forall k, f k = g k) -> forall j, spec_run f h reps j = spec_run g h reps j.
+Lemma spec_ent_local plus f g x j : f j = g j -> spec_ent plus f x j = spec_ent plus g x j.
 Proof.
-  induction h as [|o h IH]; intros reps f g E j; cbn; [apply E|].
-  destruct reps as [|r reps]; [apply E|]. apply IH. intros k. apply spec_step_ext; exact E.
+  intros E. unfold spec_ent. destruct (plus && snd x).
+  - apply spec_give_local; exact E.
+  - apply spec_forget_local. apply spec_give_local; exact E.
+Qed.
+Lemma spec_step_local f g o r j : f j = g j -> spec_step f o r j = spec_step g o r j.
+Proof.
+  intros E.
+  assert (FE : forall plus l f g, f j = g j -> fold_left (spec_ent plus) l f j = fold_left (spec_ent plus) l g j).
+  { intros plus l. induction l as [|x l IH]; cbn; intros f0 g0 E0; [exact E0|]. apply IH. apply spec_ent_local; exact E0. }
+  assert (FF : forall l f g, f j = g j ->
+            fold_left (fun f x => spec_forget f (fst x) (snd x)) l f j = fold_left (fun f x => spec_forget f (fst x) (snd x)) l g j).
+  { intros l. induction l as [|x l IH]; cbn; intros f0 g0 E0; [exact E0|]. apply IH. apply spec_forget_local; exact E0. }
+  destruct o, r; cbn; auto using spec_give_local, spec_forget_local.
+Qed.
+Lemma spec_run_local h : forall reps f g j, f j = g j -> spec_run f h reps j = spec_run g h reps j.
+Proof.
+  induction h as [|o h IH]; intros reps f g j E; cbn; [exact E|].
+  destruct reps as [|r reps]; [exact E|]. apply IH. apply spec_step_local; exact E.
 Qed.
 
-Theorem run_refines c : forall h s,
-  I1 s -> IRoot s -> hist_fresh c s h -> no_leak c s h ->
-  I1 (snd (run c s h)) /\ IRoot (snd (run c s h)) /\ ~ In RSpin (fst (run c s h)) /\
-  forall j, refs_of (snd (run c s h)) j = spec_run (refs_of s) h (fst (run c s h)) j.
+(* a reference taken and given back at once leaves every non-root count as it was *)
+Lemma undo_neutral f i j : j <> ROOT_ID -> f j < U64MAX -> spec_forget (spec_give f i) i 1 j = f j.
 Proof.
-  induction h as [|o h IH]; intros s H1 R HF NL; cbn [run hist_fresh no_leak] in *.
+  intros NR B. unfold spec_forget, spec_give, upd, sat_add.
+  destruct (N.eqb_spec i ROOT_ID) as [E|E].
+  - subst. destruct (N.eqb_spec j ROOT_ID); [contradiction|reflexivity].
+  - destruct (N.eqb_spec j i) as [E2|E2]; [|reflexivity]. subst. rewrite N.eqb_refl. lia.
+Qed.
+
+Lemma create_undo_reply c s o i f : create_undo c s o = Some i -> forall j, spec_step f o (fst (step c s o)) j = f j.
+Proof.
+  unfold create_undo. destruct o as [p t|p t|i0 p t|p t ex ok|i0 n|l|plus ents| |root]; try discriminate.
+  destruct t as [t|]; [|discriminate]. destruct ex; [|discriminate].
+  destruct (valid s p) eqn:V; [|discriminate].
+  destruct (lookup_reply c s t) as [rep s1] eqn:L. destruct rep; try discriminate.
+  destruct (fst (step c s (OCreate p (Some t) true ok))) eqn:R; try discriminate; intros _ j; reflexivity.
+Qed.
+
+Theorem run_refines c : forall h s b,
+  I1 s -> IRoot s -> hist_fresh c s h -> RB s b -> 2 <= b -> b + total_allocs h < U64MAX ->
+  I1 (snd (run c s h)) /\ IRoot (snd (run c s h)) /\ ~ In RSpin (fst (run c s h)) /\
+  forall j, j <> ROOT_ID -> refs_of (snd (run c s h)) j = spec_run (refs_of s) h (fst (run c s h)) j.
+Proof.
+  induction h as [|o h IH]; intros s b H1 R HF RBs B2 NS; cbn [run hist_fresh] in *.
   - cbn. auto.
-  - destruct HF as [F1 F2]. destruct NL as [N1 N2].
-    destruct (step_refines c s o H1 F1 N1) as (A & B & C).
+  - destruct HF as [F1 F2]. cbn [total_allocs fold_right] in NS. fold (total_allocs h) in NS.
+    destruct (step_refines c s o H1 F1) as (A & B & C).
     pose proof (step_root c s o R) as R1.
+    pose proof (step_rb c s o b H1 F1 RBs B2) as RB1.
+    assert (E1 : forall j, j <> ROOT_ID -> refs_of (snd (step c s o)) j = spec_step (refs_of s) o (fst (step c s o)) j).
+    { intros j NR. rewrite C. unfold spec_step_u. destruct (create_undo c s o) as [i|] eqn:U; [|reflexivity].
+      rewrite (create_undo_reply c s o i _ U). apply undo_neutral; [exact NR|]. specialize (RBs j). lia. }
     destruct (step c s o) as [rep s1]; cbn [fst snd] in *.
-    destruct (IH s1 A R1 F2 N2) as (A2 & R2 & B2 & C2).
+    assert (B3 : 2 <= b + allocs o) by lia.
+    assert (NS1 : b + allocs o + total_allocs h < U64MAX) by lia.
+    destruct (IH s1 _ A R1 F2 RB1 B3 NS1) as (A2 & R2 & B4 & C2).
     destruct (run c s1 h) as [l s2]; cbn [fst snd spec_run] in *.
     repeat split; auto.
     + intros [X|X]; [congruence|auto].
-    + intros j. rewrite C2. apply spec_run_ext. exact C.
+    + intros j NR. rewrite (C2 j NR). apply spec_run_local. apply E1; exact NR.
 Qed.
 
 Lemma hist_fresh_counter c : uhi c = false -> forall h s,
@@ -613,15 +719,17 @@ Lemma fresh_root c root : IRoot (fresh c root).
 Proof. unfold IRoot, fresh, import. rewrite dget_insert. rewrite N.eqb_refl. eauto. Qed.
 Lemma fresh_bnd c root : Bnd (fresh c root).
 Proof. apply import_bnd; cbn; auto; lia. Qed.
+Lemma fresh_rb c root : RB (fresh c root) 2.
+Proof. intros j. unfold fresh. rewrite import_refs by reflexivity. destruct (j =? ROOT_ID); lia. Qed.
 
 Theorem run_refines_counter c root h :
-  uhi c = false -> 2 + total_allocs h <= U64MAX -> no_leak c (fresh c root) h ->
+  uhi c = false -> 2 + total_allocs h < U64MAX ->
   let r := run c (fresh c root) h in
   I1 (snd r) /\ IRoot (snd r) /\ ~ In RSpin (fst r) /\
-  forall j, refs_of (snd r) j = spec_run (refs_of (fresh c root)) h (fst r) j.
+  forall j, j <> ROOT_ID -> refs_of (snd r) j = spec_run (refs_of (fresh c root)) h (fst r) j.
 Proof.
-  intros U NW NL. apply run_refines; auto using fresh_I1, fresh_root.
-  apply hist_fresh_counter; [exact U|apply fresh_bnd|exact NW].
+  intros U NW. apply (run_refines c h (fresh c root) 2); auto using fresh_I1, fresh_root, fresh_rb; try lia.
+  apply hist_fresh_counter; [exact U|apply fresh_bnd|]. change (next_inode (fresh c root)) with 2. lia.
 Qed.
 
 (* ------------------------------------------------------------------ readdirplus takes references for exactly the delivered entries *)
@@ -664,40 +772,39 @@ Proof.
 Qed.
 
 
-(* ------------------------------------------------------------------ the full statement and its refutation (defect D9) *)
+(* ------------------------------------------------------------------ the full statement (defect D9 is repaired: it is a theorem now) *)
 Definition refines_full : Prop := forall c root h,
-  uhi c = false -> 2 + total_allocs h <= U64MAX ->
-  forall j, refs_of (snd (run c (fresh c root) h)) j =
-            spec_run (refs_of (fresh c root)) h (fst (run c (fresh c root) h)) j.
+  uhi c = false -> 2 + total_allocs h < U64MAX ->
+  forall j, j <> ROOT_ID ->
+    refs_of (snd (run c (fresh c root) h)) j =
+    spec_run (refs_of (fresh c root)) h (fst (run c (fresh c root) h)) j.
+
+Lemma refines_full_holds : refines_full.
+Proof. intros c root h U NW. apply (run_refines_counter c root h U NW). Qed.
 
 Definition d9_cfg : cfg := mkCfg false false.
 Definition d9_root : target := mkT (100, 1, 1) None true.
 Definition d9_fifo : target := mkT (101, 1, 1) None false.
-(* create("p") where p exists and is a FIFO: EBADF to the client, one reference stays *)
+(* create("p") where p exists and is a FIFO: EBADF to the client, and (since the fix) no reference stays *)
 Definition d9_hist : list op := [OCreate 1 (Some d9_fifo) true false].
-
-Lemma refines_full_refuted : ~ refines_full.
-Proof.
-  intros H. specialize (H d9_cfg d9_root d9_hist eq_refl).
-  assert (B : 2 + total_allocs d9_hist <= U64MAX) by (vm_compute; discriminate).
-  specialize (H B 2). vm_compute in H. discriminate.
-Qed.
 
 Lemma d9_witness_shape :
   fst (run d9_cfg (fresh d9_cfg d9_root) d9_hist) = [RErr EBADF] /\
-  refs_of (snd (run d9_cfg (fresh d9_cfg d9_root) d9_hist)) 2 = 1 /\
-  create_leaks d9_cfg (fresh d9_cfg d9_root) (OCreate 1 (Some d9_fifo) true false) = true.
+  refs_of (snd (run d9_cfg (fresh d9_cfg d9_root) d9_hist)) 2 = 0 /\
+  valid (snd (run d9_cfg (fresh d9_cfg d9_root) d9_hist)) 2 = false /\
+  create_undo d9_cfg (fresh d9_cfg d9_root) (OCreate 1 (Some d9_fifo) true false) = Some 2.
 Proof. vm_compute. auto. Qed.
 
 (* non-vacuity of the hypotheses of run_refines_counter *)
 Definition ex_a : target := mkT (102, 1, 1) None true.
 Definition ex_hist : list op :=
   [OLookup 1 (Some ex_a); OLookup 1 (Some ex_a); OReaddir true [(ex_a, true); (d9_fifo, false)];
-   OForget 2 2; OCreate 1 (Some ex_a) true true; OBatchForget [(2, 5); (1, 7)]].
+   OForget 2 2; OCreate 1 (Some ex_a) true true; OCreate 1 (Some d9_fifo) true false; OBatchForget [(2, 5); (1, 7)]].
 Lemma ex_hist_ok :
-  no_leak d9_cfg (fresh d9_cfg d9_root) ex_hist /\ 2 + total_allocs ex_hist <= U64MAX /\
+  2 + total_allocs ex_hist < U64MAX /\
   fst (run d9_cfg (fresh d9_cfg d9_root) ex_hist) =
-    [RIno 2; RIno 2; REnts [(2, true); (3, false)]; RUnit; RIno 2; RUnit] /\
+    [RIno 2; RIno 2; REnts [(2, true); (3, false)]; RUnit; RIno 2; RErr EBADF; RUnit] /\
   refs_of (snd (run d9_cfg (fresh d9_cfg d9_root) ex_hist)) 2 = 0 /\
+  refs_of (snd (run d9_cfg (fresh d9_cfg d9_root) ex_hist)) 3 = 0 /\
   refs_of (snd (run d9_cfg (fresh d9_cfg d9_root) ex_hist)) 1 = 2.
 Proof. vm_compute. repeat split; auto; discriminate. Qed.
